@@ -121,6 +121,22 @@ Proof.
 Qed.
 Print Assumptions C05_basic_credentials.
 
+(* the policy check (accounts/casbin.go with the repository's matcher): a request is granted only to root or on the
+   strength of a line of the policy that names the user and covers the graph and the operation class -- a grant for one
+   class or graph never carries over to another, and the verdict does not depend on earlier requests *)
+Theorem C05_casbin_needs_rule : forall policy u g o, casbin_allows policy (u, g, o) = true ->
+  u = "root"%string \/ exists pg po, In (u, pg, po) policy /\ (pg = g \/ pg = "*"%string) /\ (po = o \/ po = "*"%string).
+Proof.
+  intros policy u g o H. unfold casbin_allows in H. apply orb_true_iff in H as [H|H].
+  - right. apply existsb_exists in H as [[[pu pg] po] [Hin Hl]]. cbn in Hl.
+    apply andb_true_iff in Hl as [Hl Ho]. apply andb_true_iff in Hl as [Hu Hg].
+    apply String.eqb_eq in Hu. subst pu. exists pg, po. split; [exact Hin|]. split.
+    + apply orb_true_iff in Hg as [Hg|Hg]; apply String.eqb_eq in Hg; [left | right]; congruence.
+    + apply orb_true_iff in Ho as [Ho|Ho]; apply String.eqb_eq in Ho; [left | right]; congruence.
+  - left. cbn in H. now apply String.eqb_eq in H.
+Qed.
+Print Assumptions C05_casbin_needs_rule.
+
 Theorem C05_wiring : forallb snd gateway_clients = true /\ grpc_server_chained = true /\ unrecognised = []
   /\ unary_shape_ok = true /\ stream_validates_first = true
   /\ server_stream_default = DRefuses /\ client_stream_default = DRefuses.
